@@ -21,6 +21,9 @@ class Monitor:
         E.monitors[self.cls] = self
         for f in self.fields:
             E.ghost_types["sync_" + f] = E.field_type(self.cls, f) or "int"
+        for g, ty in self.ghosts.items():
+            E.ghost_types[g] = ty
+            E.ghost_types["sync_" + g] = ty
 
     # ---- helpers
     def objects(self, I, lock):
@@ -51,6 +54,7 @@ class Monitor:
                 st.ghost[g] = I.fresh_of_type(ty, "ghost." + g)
                 st.ghost_init[g] = st.ghost[g]
             st.ghost[g] = I.fresh_of_type(ty, "ghost.%s!sync" % g)
+            st.ghost["sync_" + g] = st.ghost[g]
 
     def inv_terms(self, I, ref, fr):
         out = []
@@ -81,6 +85,11 @@ class Monitor:
         k = self.E.lock_key(lock)
         if I.st.held.get(k, 0) != 1:
             return
+        # ghost effects of the running function are committed at its linearisation point: the release
+        top = self.E.contract_of(self.E.current_target) if self.E.current_target else None
+        if top and top.get("on_release") and not I.callstack:
+            newg = {g: self.E.eval_spec(I, e, fr, {}) for g, e in top["on_release"].items()}
+            I.st.ghost.update(newg)
         for ref in self.objects(I, lock):
             self.assert_inv(I, ref, fr, "release", site)
 
